@@ -17,7 +17,9 @@ Known(a) == \A i \in 1..Len(a) : a[i] # -1
 RamChg(p0, p1) == IF ~Known(p0.ram) \/ ~Known(p1.ram) THEN << <<"chg?", 65280, 0>> >>
                   ELSE IF p0.ram # p1.ram THEN << <<"chg", 65280, 0>> \o p1.ram >> ELSE <<>>
 Apply(pp, l) ==
-  CASE l[1] = "save" -> LET s == StoreAll(pp, Subs(l[2]), <<>>) IN
+  CASE l[1] \in {"save", "load"} /\ IsGap(Groups[l[2]]) ->      \* no such sub-index: refused, nothing happens
+                        [ev |-> WrFrame(IF l[1] = "save" THEN 4112 ELSE 4113, l[2], IF l[1] = "save" THEN SAVE ELSE LOAD), p |-> pp, x |-> <<AbortAny(IF l[1] = "save" THEN 4112 ELSE 4113, l[2])>>]
+    [] l[1] = "save" -> LET s == StoreAll(pp, Subs(l[2]), <<>>) IN
                         [ev |-> WrFrame(4112, l[2], SAVE), p |-> s.p, x |-> s.out \o <<IF s.ok THEN WrOk(4112, l[2]) ELSE AbortAny(4112, l[2])>>]
     [] l[1] = "load" -> LET s == RestoreAll(pp, Subs(l[2]), <<>>) IN
                         [ev |-> WrFrame(4113, l[2], LOAD), p |-> s.p, x |-> s.out \o <<WrOk(4113, l[2])>> \o RamChg(pp, s.p)]
@@ -37,6 +39,10 @@ Rec(step) == /\ hist' = (IF Walk THEN Append(hist, step) ELSE <<step>>)
 \* C17 on the reference
 StepOk(p0, l, a) ==
   \* a store writes exactly the RAM bytes of the addressed enabled groups, nothing else in NVM changes
+  \* 'load' calls the default callback for exactly the enabled groups of the addressed sub-index (all existing ones for sub-index 1)
+  /\ (l[1] = "load" /\ ~IsGap(Groups[l[2]]) =>
+        \A k \in 1..N : (\E j \in 1..Len(a.x) : a.x[j] = <<"cb", "paradef", k - 1>>) <=>
+                         (Groups[k].en /\ ~IsGap(Groups[k]) /\ (IF l[2] = 1 /\ N > 1 THEN k > 1 ELSE k = l[2])))
   /\ (l[1] = "save" /\ p0.fault = 0 =>
         \A i \in 1..Len(Dflt) : a.p.nvm[i] = (IF \E j \in 1..Len(Subs(l[2])) : LET g == Groups[Subs(l[2])[j]] IN g.en /\ i > g.off /\ i <= g.off + g.size
                                               THEN p0.ram[i] ELSE p0.nvm[i]))
